@@ -1,12 +1,15 @@
 import EaselModel.Containers.KeyhashLemmas
 import EaselModel.Containers.KeyhashBounds
+import EaselModel.Containers.KeyhashApiLemmas
 import EaselModel.Containers.HeapLemmas
 import EaselModel.Containers.HeapHistory
 import EaselModel.Containers.RedBlackLemmas
+import EaselModel.Containers.RedBlackPtrLemmas
 import EaselModel.Containers.StackLemmas
 import EaselModel.Containers.StackHistory
 import EaselModel.Containers.QuicksortLemmas
 import EaselModel.Containers.AllocBounds
+import EaselModel.Containers.Extras
 /-! # C19 — key tables, heaps, trees, stacks and index sorts behave as their abstract types
 
 Statements + glue only; the lemmas live in `EaselModel/Containers/*Lemmas.lean`. Every theorem quantifies over all
@@ -55,6 +58,48 @@ theorem keyhash_refines_cstrings (H : Key → Nat → Nat) (hH : HashOK H) (size
   | store k => exact absurd rfl (hstr _ hop k).1
   | lookup k => exact absurd rfl (hstr _ hop k).2
   | _ => trivial
+
+/-- THE COMPLETE PUBLIC API IN ONE HISTORY: `Store`/`Lookup` with `n = -1` on arbitrary bytes (read up to the first NUL),
+    `Store` by explicit length of NUL-free keys, `Lookup` by explicit length of ARBITRARY bytes (embedded NULs included),
+    `Get`, `GetNumber`, `Reuse`, `Clone`, mixed in any order. The embedded-NUL finding affects exactly one kind of call:
+    a `Store` by explicit length whose key contains a NUL (and whatever follows it in that history); everything else
+    refines the insertion-ordered map. -/
+theorem keyhash_refines_mixed (H : Key → Nat → Nat) (hH : HashOK H) (size kalloc salloc : Nat)
+    (h1 : 0 < size) (h2 : 0 < kalloc) (h3 : 0 < salloc) (ops : List Op) (hst : ∀ op ∈ ops, op.StoreNulFree) :
+    run H (create size kalloc salloc) ops = specRun [] ops :=
+  run_spec_mixed hH ops _ [] (inv_create H size kalloc salloc h1 h2 h3) hst
+
+/-- … and the first offending `Store` itself still ANSWERS as the abstract type does (new key, next index) whenever it
+    returns; its damage is to the state: the arena then holds a string that reads back as a proper prefix of the key
+    (`keyhash_embedded_nul_counterexample` shows the next answers going wrong) -/
+theorem keyhash_nul_store_answer (H : Key → Nat → Nat) (hH : HashOK H) (kh : KH) (keys : List Key) (hi : Inv H kh keys)
+    (key : Key) (h0 : (0 : UInt8) ∈ key) (r : KH × Status × Nat) (hr : store H kh key = some r) :
+    key ∉ keys ∧ r.2 = (.ok, keys.length) := store_nul_answer hi hH key h0 r hr
+
+/-- the `n = -1` code paths AS WRITTEN — `jenkins_hash`'s string loop, `strlen`, the `strcmp` chain walk of `Lookup` — are
+    the buffer paths applied to the bytes before the first NUL (so `storeStr`/`lookupStr` above are the C-string calls) -/
+theorem keyhash_string_paths (kh : KH) (k : Key) :
+    lookupStrC jenkinsStr kh k = lookup jenkins kh (cstrOf k) ∧
+    storeStrC jenkinsStr jenkins kh k = store jenkins kh (cstrOf k) ∧
+    (∀ sz, jenkinsStr k sz = jenkins (cstrOf k) sz) ∧ strlen k = (cstrOf k).length ∧
+    (∀ m pos, strcmpAt k m pos = memstrcmpAt (cstrOf k) m pos) :=
+  ⟨lookupStrC_jenkins kh k, storeStrC_jenkins kh k, jenkinsStr_eq k, strlen_eq k, strcmpAt_eq k⟩
+
+/-- `esl_keyhash_Dump` (and with it `GetNumber`, `Sizeof`, which only read fields) on every reachable table: all its chain
+    walks end, no index is out of bounds; it reports the abstract key count and arena use Σ(len+1) -/
+theorem keyhash_dump (H : Key → Nat → Nat) (kh : KH) (keys : List Key) (hi : Inv H kh keys) :
+    ∃ d, dump kh = some d ∧ d.nkeys = keys.length ∧ d.hashsize = kh.hashsize ∧
+      d.sn = (keys.map (fun k => k.length + 1)).sum := dump_spec hi
+
+-- non-vacuity: a mixed history with a by-length lookup of a NUL-containing key, in a table of 3 slots (not a power of two)
+example : run jenkins (create 3 1 1)
+    [.store [0x61, 0x62], .storeStr [0x61, 0x62, 0, 9], .lookup [0x61, 0, 0x62], .lookup [0x61, 0x62, 0], .lookupStr [0x61, 0x62, 0, 7],
+     .store [1], .store [2], .store [3], .store [4], .store [5], .store [6], .store [7], .store [8], .store [9], .lookup [9], .number]
+    = some [.stored false 0, .stored true 0, .notfound, .notfound, .found 0,
+            .stored false 1, .stored false 2, .stored false 3, .stored false 4, .stored false 5, .stored false 6, .stored false 7,
+            .stored false 8, .stored false 9, .found 9, .num 10] := by decide +kernel
+example : Op.StoreNulFree (.lookup [0x61, 0, 0x62]) := trivial
+example : (dump (create 3 1 1)).map (fun d => (d.nempty, d.maxkeys, d.minkeys)) = some (3, 0, 0) := by decide
 
 /-- the two APIs agree on NUL-free keys -/
 theorem keyhash_cstr_of_nulfree (k : Key) (h : (0 : UInt8) ∉ k) : cstrOf k = k := cstrOf_eq_self k h
@@ -189,6 +234,17 @@ theorem heap_nalloc_in_range (h h' : Heap.Heap) (v : Int) (B : Nat) (hi : insert
     (hs : h.data.size ≤ B) (hn : h.nalloc ≤ max 128 (2 * B)) : h'.nalloc ≤ max 128 (2 * B) :=
   Heap.insert_nalloc_le h h' v B hi hs hn
 
+/-- `heap_grow` (the doubling reallocation) preserves the heap: same cells, same order, same direction, the invariant
+    holds with the doubled `nalloc`, and the cell the pending insertion writes (`idata[n]`) is inside the new allocation;
+    `IInsert` on a full heap is exactly `heap_grow` followed by the insertion, and `nalloc` changes at no other time -/
+theorem heap_grow (h : Heap.Heap) (hi : Heap.Inv h) :
+    Heap.Inv (grow h) ∧ (grow h).data = h.data ∧ (grow h).isMax = h.isMax ∧ (grow h).nalloc = 2 * h.nalloc ∧
+      h.data.size < (grow h).nalloc ∧
+    (∀ v, h.data.size = h.nalloc → insert h v = insert (grow h) v) ∧
+    (∀ v h', insert h v = some h' → h'.nalloc = if h.data.size = h.nalloc then 2 * h.nalloc else h.nalloc) := by
+  obtain ⟨a, b, c, d, e⟩ := grow_inv h hi
+  exact ⟨a, b, c, d, e, fun v hf => insert_full_eq h v hi hf, fun v h' hh => insert_nalloc h h' v hh⟩
+
 /-- `esl_heap_Validate` accepts exactly the heap-ordered arrays -/
 theorem heap_validate (h : Heap.Heap) :
     validate h = true ↔ (∀ i, 0 < i → i < h.data.size → ¬ better h.isMax (h.data[i]!) (h.data[parent i]!) = true) :=
@@ -239,7 +295,77 @@ example : ∃ t, insertAll (.nil : Tree Int) [1, 2, 3] = some t ∧ WF t ∧ toL
   rw [h1] at h
   exact ⟨t, h1, h2, by simpa using h⟩
 example : (insertAll (.nil : Tree Int) [5, 3, 8, 1, 4, 7, 9, 2, 6, 3]).map toList = some [1, 2, 3, 4, 5, 6, 7, 8, 9] := by decide
+/-- lookup after ANY insertion history (duplicates, any order) finds exactly the inserted keys: the tree refines the
+    sorted association list / set of the distinct inserted keys -/
+theorem rb_lookup_history (ks : List Int) :
+    ∃ t, insertAll .nil ks = some t ∧ (∀ k, lookup k t = true ↔ k ∈ ks) ∧ (toList t).Pairwise (· < ·) := by
+  obtain ⟨t, h1, h2, h3⟩ := insertAll_spec ks
+  exact ⟨t, h1, fun k => (lookup_iff t h2.1 k).trans (h3 k), h2.1⟩
+
+/-- FOR EVERY HISTORY of insertions and lookups (duplicates, any order, lookups of absent keys in between): no `esl_fatal`,
+    `insert` answers "inserted" exactly for new keys (NULL for duplicates), `lookup` finds exactly the keys inserted so far -/
+theorem rb_ops_history (ops : List RedBlack.RbOp) : RedBlack.runRb .nil ops = some (RedBlack.specRunRb [] ops) :=
+  RedBlack.runRb_spec ops .nil [] wf_nil (fun x => by simp [toList])
+
+example : RedBlack.runRb .nil [.insert 5, .lookup 5, .lookup 3, .insert 3, .insert 5, .lookup 3]
+    = some [true, true, false, true, false, true] := by decide
 end RB
+
+/-! ## Red-black tree, pointer level (`RedBlackPtr`): the records, their `small`/`large`/`parent` pointers, the node pool -/
+section RBPtr
+open RedBlackPtr
+
+/-- `esl_red_black_doublekey_pool_Create(number)` followed by `number` takes from the free list: the `number` records of
+    the block, pairwise DISTINCT, none of them in use before, then the free list is `NULL` — no record is handed out twice -/
+theorem rb_pool_never_twice (st : Store) (number : Nat) (hn : 0 < number) :
+    (poolCreate st number).2 = some st.size ∧
+    ∃ l, takeN (poolCreate st number).1 number (poolCreate st number).2 = some (l, none) ∧
+      l = List.range' st.size number ∧ l.Nodup ∧ l.length = number ∧ ∀ x ∈ l, st.size ≤ x := pool_take_all st number hn
+
+/-- the pointer loop of `esl_red_black_doublekey_lookup` on any tree laid out in the store (`Repr`): it terminates without
+    touching anything outside the store, answers as the lookup on the abstract tree, and the record it returns is a record
+    of the tree carrying that key -/
+theorem rb_ptr_lookup (st : Store) (t : Shape) (p : Ptr) (key : Int) (fuel : Nat) (h : Repr st t p) (hf : t.height ≤ fuel) :
+    ∃ r, RedBlackPtr.lookup st key fuel p = some r ∧ r.isSome = RedBlack.Tree.lookup key (absTree st t) ∧
+      (∀ i, r = some i → i ∈ t.ids ∧ ∃ nd, rd st i = some nd ∧ nd.key = key) := lookup_repr key fuel h hf
+
+/-- `esl_red_black_doublekey_convert_to_sorted_linked` on ANY tree laid out in the store over distinct records (no balance
+    or order assumption): it returns `eslOK`; `head` is the last, `tail` the first record in in-order; walking from `tail`
+    along `large` visits exactly the in-order sequence of records, walking from `head` along `small` its reverse;
+    consecutive records point at each other (`a.large = b ∧ b.small = a`: prev/next are inverse), both ends are
+    NULL-terminated; keys, colours, parents and every record outside the tree are untouched, and the keys along the list
+    are the in-order keys of the tree (ascending whenever the tree was a search tree) -/
+theorem rb_convert_doubly_linked (st : Store) (t : Shape) (root : Nat) (hrep : Repr st t (some root)) (hnd : t.ids.Nodup) :
+    ∃ st' head tail, convert st (some root) = some (some (st', some head, some tail)) ∧
+      t.ids.getLast? = some head ∧ t.ids.head? = some tail ∧
+      follow st' (·.large) (st'.size + 1) (some tail) = t.ids ∧
+      follow st' (·.small) (st'.size + 1) (some head) = t.ids.reverse ∧
+      Linked st' t.ids ∧ smallOf st' tail = some none ∧ largeOf st' head = some none ∧
+      SameData st st' ∧ (∀ j, j ∉ t.ids → rd st' j = rd st j) ∧
+      t.ids.filterMap (fun i => (rd st' i).map (·.key)) = RedBlack.Tree.toList (absTree st t) := convert_spec hrep hnd
+
+/-- … and the library's own checker `esl_red_black_doublekey_linked_list_test(&head, &tail)` (both walks, the order tests,
+    the back-pointer tests, the two counts) returns `eslOK` on the result whenever the tree was a search tree -/
+theorem rb_convert_passes_list_test (st : Store) (t : Shape) (root : Nat) (hrep : Repr st t (some root)) (hnd : t.ids.Nodup)
+    (hbst : (RedBlack.Tree.toList (absTree st t)).Pairwise (· < ·)) :
+    ∃ st' head tail, convert st (some root) = some (some (st', some head, some tail)) ∧
+      linkedListTest st' (some head) (some tail) = some .ok := convert_then_test hrep hnd hbst
+
+/-- a NULL tree is refused with `eslFAIL` -/
+theorem rb_convert_null (st : Store) : convert st none = some none := rfl
+
+-- non-vacuity: a three-record tree (root 0 with key 5, small child 1 with key 3, large child 2 with key 8)
+example : Repr (#[⟨5, .black, none, some 1, some 2⟩, ⟨3, .red, some 0, none, none⟩, ⟨8, .red, some 0, none, none⟩] : Store)
+    (.node (.node .nil 1 .nil) 0 (.node .nil 2 .nil)) (some 0) := by
+  refine ⟨rfl, _, rfl, ⟨rfl, _, rfl, rfl, rfl⟩, ⟨rfl, _, rfl, rfl, rfl⟩⟩
+example : (convert (#[⟨5, .black, none, some 1, some 2⟩, ⟨3, .red, some 0, none, none⟩, ⟨8, .red, some 0, none, none⟩] : Store) (some 0)).map
+    (fun r => r.map fun (st, h, t) => (h, t, follow st (·.large) 4 t, follow st (·.small) 4 h))
+    = some (some (some 2, some 1, [1, 0, 2], [2, 0, 1])) := by decide
+end RBPtr
+
+section RB2
+
+end RB2
 
 /-! ## Stacks (int / char / pointer stacks share the code shape; one model) -/
 section StackS
@@ -292,6 +418,16 @@ theorem stack_history_shuffles {α : Type} (rollFuel : Nat) (s : Stack.Stack α)
     (∀ outs, runS rollFuel s ops = some outs → outs = specRunS l ops) :=
   ⟨fun s' h => stack_history_multiset rollFuel s hi l hp ops hof s' h,
    fun outs h => stack_history_multiset_outputs rollFuel s hi l hp ops hof outs h⟩
+
+/-- the mutex mode (`esl_stack_UseMutex`, `UseCond`, `ReleaseCond`) is MODELLED AS ATOMIC OPERATIONS (each public function
+    runs between lock and unlock; not proved about the pthread calls): then for any two threads' operation sequences and
+    any interleaving the scheduler produces, every answer is the LIFO list's answer on that interleaving -/
+theorem stack_threads_atomic {α : Type} (rollFuel : Nat) (s : Stack.Stack α) (hi : Stack.Inv s) (a b l : List (SOp α))
+    (hl : Interleave a b l) (ha : ∀ op ∈ a, op.isShuffle = false) (hb : ∀ op ∈ b, op.isShuffle = false) :
+    runS rollFuel s l = some (specRunS s.data.toList l) := threads_atomic rollFuel s hi a b l hl ha hb
+
+example : Interleave [SOp.push 1, SOp.pop] [SOp.push (2 : Nat)] [.push 1, .push 2, .pop] :=
+  .left _ (.right _ (.left _ .nil))
 
 /-- the only way an operation does not return on a valid stack is the Roll loop of a shuffle running out of fuel -/
 theorem stack_no_fault {α : Type} (rollFuel : Nat) (s : Stack.Stack α) (hi : Stack.Inv s) (op : SOp α) :
